@@ -19,6 +19,7 @@ func main() {
 	nScripts := flag.Int("scripts", 6, "fd_readdir scripts per directory")
 	nFs := flag.Int("fs", 100, "number of fs cases")
 	compEvery := flag.Int("compiler-every", 10, "run every k-th fs case on the compiler engine (0 = never)")
+	script := flag.String("script", "", "fs stream only: execute the operation lists of this file (one JSON array per line)")
 	flag.Parse()
 	ctx := context.Background()
 	root, err := os.MkdirTemp("", "verif-c16-")
@@ -28,6 +29,10 @@ func main() {
 	defer os.RemoveAll(root)
 	out := c.NewOut()
 	defer out.Flush()
+	if *script != "" {
+		runFsScript(ctx, out, root, *script)
+		return
+	}
 	genTable(c.NewRng(*seed*3+1), out, *nTable)
 	genReaddir(ctx, c.NewRng(*seed*3+2), out, root, *nDirs, *nScripts)
 	genFs(ctx, c.NewRng(*seed*3+3), out, root, *nFs, *compEvery)
